@@ -28,7 +28,7 @@ fn write(ctx: &mut SerializationContext<Vec<u8>>, c: u8) {
 }
 
 proof! {
-    //@ props=C04,C09 tier=quick bounds=stream:one-deduplicated-string(1-ASCII-char,symbolic):byte-for-byte-a-plain-string cap=900
+    //@ props=C04,C09 tier=thorough bounds=stream:one-deduplicated-string(1-ASCII-char,symbolic):byte-for-byte-a-plain-string cap=900
     fn c09_first_occurrence_is_plain() unwind(6) {
         let c = ascii();
         let mut ctx = SerializationContext::new(Vec::new());
@@ -85,7 +85,7 @@ proof! {
 }
 
 proof! {
-    //@ props=C04,C09 tier=quick bounds=decode:stream-x,back-reference-1:both-reads-yield-x cap=900
+    //@ props=C04,C09 tier=thorough bounds=decode:stream-x,back-reference-1:both-reads-yield-x cap=900
     fn c09_decode_back_reference() unwind(6) {
         let c = ascii();
         let data = [2u8, c, 1];
